@@ -1028,7 +1028,12 @@ func (envs *Manager) handleIntegratedServiceEvent(evt event.IntegratedServiceEve
 									WithError(err).
 									Error("environment GO_ERROR transition failed after ODC_PARTITION_STATE_CHANGE ERROR event")
 							}
-							env.setState("ERROR")
+							// DONE is terminal: a report that waited behind a teardown must not revive the environment
+							env.Mu.Lock()
+							if env.Sm.Current() != "DONE" {
+								env.Sm.SetState("ERROR")
+							}
+							env.Mu.Unlock()
 						}
 					}()
 				}
